@@ -24,6 +24,7 @@ pub fn def() -> PropDef {
         flavours: &["tokio"],
         outcome: None,
         extra_profiles: &["C01", "C02", "C03", "C04", "C07", "C11", "C13", "C16", "C17"],
+        adapt: None,
     }
 }
 
